@@ -17,6 +17,10 @@ numpy implementations of the vendors' documented gate definitions, qubit order a
           (little-endian keys, metadata unpacking, batches), SimulatorResult.to_cirq_result under a scripted PRNG
           (exact sampling distribution); every table / API histogram is also listed in descending and rotated
           insertion order (ascending little-endian order is already non-ascending big-endian order),
+        * every ordered target layout (all permutations of all subsets of 4 qubits; <=3 targets on 5 qubits) x every
+          basis outcome for QPUResult / SimulatorResult / Job.results(),
+        * batch closed loop: all ordered pairs/triples of circuits with different qubit counts, layouts and histograms
+          through Service.run_batch / create_batch_job with the child job ids in EVERY order,
         * closed loop: cirq_ionq.Service / Sampler against an in-process ideal IonQ API (requests-level fake that
           runs the reference interpreter and answers little-endian histograms): exact distribution of the returned
           cirq.Result vs the Born distribution of the circuit.
@@ -63,7 +67,8 @@ RULE = ("IonQ: every placed letter (X/Y/Z powers at 14 special exponents, each +
         "letters of a representative placed alphabet x measurement layouts, native sequences, all mixed pairs; 39 "
         "measurement layouts x 4 gate prefixes x 2 moment structures; all ordered pairs/triples of a circuit pool as batches; results: ALL histograms over <=3 "
         "qubits with counts in {0,1,2} (weights k/4 for the simulator) x every layout of ordered disjoint target "
-        "subsets x table/API-histogram insertion order (ascending, descending, rotated); closed loop Service/Sampler runs against an in-process reference IonQ API. AQT: all sequences of "
+        "subsets x table/API-histogram insertion order (ascending, descending, rotated); every ordered target subset of 4 (<=3 of 5) qubits x every basis outcome; batches of 2/3 different circuits x "
+        "every permutation of the child job ids x qpu/simulator; closed loop Service/Sampler runs against an in-process reference IonQ API. AQT: all sequences of "
         "<=2/<=3 letters over Z/PhasedX/XX grids (+ rejected X/Y/CZ, measurement positions) x resolver. Pasqal: sequences "
         "over the device gate set x resolver. non-trivial = payload accepted and containing >=1 gate or measurement "
         "(serializers), histogram with >=2 outcomes or >=2 shots (results), distribution with >=2 outcomes (loops); "
@@ -269,6 +274,10 @@ def build_layouts():
     L.append(Layout("invert mask", [("i", (0, 1), (True, False))], must=False))
     L.append(Layout("invert mask second key", [("a", (2,), None), ("i", (1, 0), (False, True))], must=False))
     L.append(Layout("all-false invert mask", [("i", (0, 1), None)]))
+    # keys whose first and last target span exactly len-1 qubits without being an ascending run (appended last: indices above stay)
+    L.append(Layout("perm p:0213", _one("p", (0, 2, 1, 3))))
+    L.append(Layout("perm p:032|o:1", [("p", (0, 3, 2), None), ("o", (1,), None)]))
+    L.append(Layout("perm o:2|p:103", [("o", (2,), None), ("p", (1, 0, 3), None)]))
     return L
 
 
@@ -1118,7 +1127,8 @@ def job_batch_cases():
         for r in (2, 3):
             for combo in itertools.product(range(len(items)), repeat=r):
                 for mode in range(3):
-                    out.append((backend, combo, mode))
+                    for pi in range(math.factorial(r)):
+                        out.append((backend, combo, mode, pi))
     return out, items
 
 
@@ -1126,17 +1136,19 @@ _JB_ITEMS = job_batch_cases()[1]
 
 
 def run_job_batch(case):
-    backend, combo, mode = case
+    backend, combo, mode, pi = case
     subs = [_JB_ITEMS[i] for i in combo]
     shots = 4
     api = {}
+    # child job ids are opaque: sub-result j (submission order = response order) gets the pi-th permutation of the ids
+    ids = [f"child-{x:04d}" for x in list(itertools.permutations(range(len(subs))))[pi]]
     mlist = []
     qn = []
     for j, (n, hist, layout) in enumerate(subs):
         tot = sum(hist)
         # sub-histogram j lists its little-endian keys in insertion order (mode + j) % 3
         h = _api_dict([(RI.bits_to_le_key(_bits_be(v, n)), c / tot) for v, c in enumerate(hist) if c], (mode + j) % 3)
-        api[f"child-{j:04d}"] = h
+        api[ids[j]] = h
         mlist.append(RI.encode_measurement_metadata([(f"k{i}", t) for i, t in enumerate(layout)]))
         qn.append(n)
     md = {"measurements": json.dumps(mlist), "qubit_numbers": json.dumps(qn)}
@@ -1146,7 +1158,7 @@ def run_job_batch(case):
         return bad(f"batch of {len(subs)} returned {type(rs)} of length {len(rs) if isinstance(rs, list) else '-'}", kind="job_batch")
     for j, ((n, hist, layout), res) in enumerate(zip(subs, rs)):
         tot = sum(hist)
-        tag = f"batch result {j} of {case}: API {api[f'child-{j:04d}']} n={n} layout={layout}"
+        tag = f"batch result {j} of {case}: API {api[ids[j]]} (child ids in response order: {ids}) n={n} layout={layout}"
         md_dict = {f"k{i}": list(t) for i, t in enumerate(layout)}
         if res.num_qubits() != n or dict(res.measurement_dict()) != md_dict:
             return bad(f"{tag}: num_qubits {res.num_qubits()} / measurement_dict {res.measurement_dict()}", kind="job_batch")
@@ -1226,9 +1238,12 @@ class FakeIonQApi:
     codes = _real_requests.codes
     RequestException = _real_requests.RequestException
 
-    def __init__(self, order_base=0):
+    def __init__(self, order_base=0, child_perm=None):
         self.jobs = {}
         self.bodies = []
+        # child job ids are opaque strings: circuit i (submission order = response order) is given the id number
+        # child_perm[i]; by default the ids happen to sort in submission order
+        self.child_perm = child_perm
         # circuit i of job number j lists its histogram in insertion order (order_base + j + i) % 3 of the
         # little-endian keys: ascending, descending, rotated (nothing documents a particular order)
         self.order_base = order_base
@@ -1269,7 +1284,8 @@ class FakeIonQApi:
         if parts[1:] == ["results", "probabilities"] and not j["multi"]:
             return _Resp(self._listed(j["hists"][0], parts[0], 0))
         if parts[1:] == ["results", "probabilities", "aggregated"] and j["multi"]:
-            return _Resp({f"{parts[0]}-child-{i:03d}": self._listed(h, parts[0], i) for i, h in enumerate(j["hists"])})
+            perm = self.child_perm or tuple(range(len(j["hists"])))
+            return _Resp({f"{parts[0]}-child-{perm[i]:03d}": self._listed(h, parts[0], i) for i, h in enumerate(j["hists"])})
         raise core.HarnessError(f"unexpected GET {url}")
 
 
@@ -1322,6 +1338,11 @@ def _cmp_dist(got, exp, atol=1e-7):
 LOOP_LAYOUTS = [1, 3, 4, 7]
 
 
+def _perm_layouts():
+    return [i for i, l in enumerate(_G["layouts"]) if l.name.startswith("perm ")]
+
+
+
 def loop_cases(tier):
     A = _G["seq_qis"]
     nq = len(A)
@@ -1330,7 +1351,7 @@ def loop_cases(tier):
     core_names = ["X(0)", "V(1)", "X^g(3)", "H(0)", "H(1)", "Y^g(0)", "S(1)", "CNOT(0,1)", "CNOT(1,0)", "CNOT(3,0)", "SWAP(2,1)",
                   "XX^g(3,1)", "ZZ^g(0,1)", "phasor(XZ)(2,0)", "phasor(YIZ)(3,0,1)", "phasor(-ZY)(1,3)", "rx(3)", "Vi(0)"]
     idx = [i for i, a in enumerate(A) if a[0] in core_names]
-    for li in LOOP_LAYOUTS:
+    for li in LOOP_LAYOUTS + _perm_layouts()[:1]:
         for i in range(nq):
             if A[i][2]:
                 out.append(("sim", "q", (i,), li))
@@ -1343,8 +1364,9 @@ def loop_cases(tier):
     for s in itertools.product(range(len(N)), repeat=2):
         out.append(("sim", "n", s, 3))
     # qpu target: dyadic circuits (probabilities k/4) so that round(repetitions * p) is exact
-    dy = [i for i, a in enumerate(A) if a[0] in ("X(0)", "H(0)", "H(1)", "V(3)", "CNOT(0,1)", "CNOT(1,0)", "SWAP(2,1)", "Y(1)", "Z(0)", "CNOT(3,0)")]
-    for li in LOOP_LAYOUTS:
+    dy = [i for i, a in enumerate(A) if a[0] in ("X(0)", "X(1)", "X(3)", "H(0)", "H(1)", "V(3)", "CNOT(0,1)", "CNOT(1,0)", "SWAP(2,1)", "Y(1)", "Z(0)",
+                                                 "CNOT(3,0)", "CNOT(1,2)")]
+    for li in LOOP_LAYOUTS + _perm_layouts():
         for s in itertools.product(dy, repeat=2):
             out.append(("qpu", "q", s, li))
     return out
@@ -1393,6 +1415,138 @@ def run_loop(case):
             if dict(got) != {k: v for k, v in want.items() if v}:
                 return bad(f"Service.run(target=qpu): shot records {dict(got)} != expected counts {want}\ncircuit {circuit!r}\nbody {api.bodies[-1]!r}", kind="loop")
             return good(nontrivial=len(exp) >= 2, runs=1)
+
+
+# --- closed loop for batches: different qubit counts / layouts / histograms, child job ids in every order --------------
+
+
+def build_batch_loop_pool():
+    """Dyadic circuits (probabilities k/4 or k/2) with pairwise different qubit counts, layouts and histograms."""
+    q = LQ.range(4)
+    return [
+        ("X(0)|m:0", [cirq.X(q[0])], [("m", (0,), None)]),
+        ("H(1)CNOT(1,3)|r:310", [cirq.H(q[1]), cirq.CNOT(q[1], q[3])], [("r", (3, 1, 0), None)]),
+        ("X(2)CNOT(2,0)|a:1,b:0,c:2", [cirq.X(q[2]), cirq.CNOT(q[2], q[0])], [("a", (1,), None), ("b", (0,), None), ("c", (2,), None)]),
+        ("X(1)H(3)|p:0213", [cirq.X(q[1]), cirq.H(q[3])], [("p", (0, 2, 1, 3), None)]),
+        ("V(0)X(1)|z:1,y:0", [cirq.X(q[0]) ** 0.5, cirq.X(q[1])], [("z", (1,), None), ("y", (0,), None)]),
+    ]
+
+
+_BL_POOL = None
+
+
+def batch_loop_cases(tier):
+    n = len(build_batch_loop_pool())
+    out = []
+    for target in ("sim", "qpu"):
+        for r in (2, 3):
+            for combo in itertools.permutations(range(n), r):
+                for perm in itertools.permutations(range(r)):
+                    out.append((target, combo, perm))
+    return out
+
+
+def run_batch_loop(case):
+    global _BL_POOL
+    if _BL_POOL is None:
+        _BL_POOL = build_batch_loop_pool()
+    target, combo, perm = case
+    items = [_BL_POOL[i] for i in combo]
+    circuits = [cirq.Circuit(ops + [cirq.measure(*[LQ(t) for t in ts], key=k) for k, ts, _ in meas]) for _, ops, meas in items]
+    ns = [_n_qubits(c) for c in circuits]
+    api = FakeIonQApi(order_base=len(combo) + perm[0], child_perm=tuple(perm))
+    names = [it[0] for it in items]
+    with _Patched(_ionq_client_mod, "requests", api):
+        service = cirq_ionq.Service(remote_host="http://example.com", api_key="key")
+        if target == "sim":
+            reps = 2 ** max(ns)
+            prng = ScriptedRandomState(None)
+            rs = service.run_batch(circuits, repetitions=reps, target="simulator", seed=prng)
+        else:
+            reps = 4
+            rs = service.run_batch(circuits, repetitions=reps, target="qpu")
+            job = service.create_batch_job(circuits, repetitions=reps, target="qpu")
+            direct = job.results()
+    if len(rs) != len(circuits):
+        return bad(f"run_batch of {names} returned {len(rs)} results", kind="batch_loop")
+    for j, ((name, ops, meas), res, n) in enumerate(zip(items, rs, ns)):
+        keys = [k for k, _, _ in meas]
+        exp = _born_records(ops, n, meas)
+        tag = f"run_batch({names}, target={target}) with child job ids numbered {list(perm)} in submission order, result {j} ({name})"
+        if set(res.measurements) != set(keys):
+            return bad(f"{tag}: keys {sorted(res.measurements)} != {sorted(keys)}", kind="batch_loop")
+        for k, ts, _ in meas:
+            if res.measurements[k].shape != (reps, len(ts)):
+                return bad(f"{tag}: key {k} has shape {res.measurements[k].shape}, expected {(reps, len(ts))}", kind="batch_loop")
+        if target == "sim":
+            got = _dist_from_recorded(prng, j, res, keys, reps)
+            if not _cmp_dist(got, exp):
+                return bad(f"{tag}: record distribution {got} != the circuit's own Born distribution {exp}", kind="batch_loop")
+        else:
+            got = collections.Counter(tuple(tuple(int(x) for x in res.measurements[k][i]) for k in keys) for i in range(reps))
+            want = {r_: round(p * reps) for r_, p in exp.items()}
+            if dict(got) != {k: v for k, v in want.items() if v}:
+                return bad(f"{tag}: shot records {dict(got)} != the circuit's own counts {want}", kind="batch_loop")
+            d = direct[j]
+            if d.num_qubits() != n or dict(d.measurement_dict()) != {k: list(ts) for k, ts, _ in meas}:
+                return bad(f"{tag}: Job.results()[{j}] has num_qubits {d.num_qubits()} / measurement_dict {d.measurement_dict()}", kind="batch_loop")
+            for k, ts, _ in meas:
+                wantc = collections.Counter()
+                for r_, p in exp.items():
+                    wantc[int("".join(str(b) for b in r_[keys.index(k)]), 2)] += round(p * reps)
+                if {a: b for a, b in d.counts(k).items() if b} != {a: b for a, b in wantc.items() if b}:
+                    return bad(f"{tag}: Job.results()[{j}].counts({k!r}) = {dict(d.counts(k))} != {dict(wantc)}", kind="batch_loop")
+    return good(nontrivial=True, runs=1)
+
+
+# --- every ordered target layout x every basis outcome -----------------------------------------------------------------
+
+
+def _ordered_subsets(n, rmax):
+    return [p for r in range(1, rmax + 1) for p in itertools.permutations(range(n), r)]
+
+
+_TL = {4: _ordered_subsets(4, 4), 5: _ordered_subsets(5, 3)}
+
+
+def target_layout_cases():
+    return [(n, v) for n in (4, 5) for v in range(2 ** n)]
+
+
+def run_target_layouts(case):
+    """One-hot histogram |v> on n qubits x every ordered subset of targets (all permutations of all subsets; for 5
+    qubits keys of <= 3 targets): QPUResult / SimulatorResult built directly and through Job.results()."""
+    n, v = case
+    bits = _bits_be(v, n)
+    le = RI.bits_to_le_key(bits)
+    nl = 0
+    for targets in _TL[n]:
+        rest = tuple(t for t in reversed(range(n)) if t not in targets)
+        layout = [targets] + ([rest] if rest else [])
+        md_dict = {f"k{j}": list(t) for j, t in enumerate(layout)}
+        md = RI.encode_measurement_metadata([(k, t) for k, t in md_dict.items()])
+        want = _key_value(bits, targets)
+        want_rows = tuple(tuple(bits[t] for t in tg) for tg in layout)
+        qpus = [("QPUResult", cirq_ionq.QPUResult({v: 2}, n, md_dict)),
+                ("Job.results() [qpu]", cirq_ionq.Job(_FakeResultsClient({str(le): "1.0"}), _job_dict("qpu.aria-1", n, md, 2)).results())]
+        for tag, res in qpus:
+            tag = f"{tag} for outcome {bits} (qubit 0 first) on {n} qubits, key targets {list(targets)}"
+            err = _check_qpu_views(res, n, [bits, bits], layout, tag)
+            if err:
+                return bad(err, kind="target_layout")
+            if dict(res.counts("k0")) != {want: 2} or list(res.ordered_results("k0")) != [want, want]:
+                return bad(f"{tag}: counts = {dict(res.counts('k0'))}, ordered_results = {res.ordered_results('k0')}, expected value {want}", kind="target_layout")
+        sims = [("SimulatorResult", cirq_ionq.SimulatorResult({v: 1.0}, n, md_dict, repetitions=2)),
+                ("Job.results() [simulator]", cirq_ionq.Job(_FakeResultsClient({str(le): 1.0}), _job_dict("simulator", n, md, 2)).results())]
+        for tag, res in sims:
+            tag = f"{tag} for outcome {bits} (qubit 0 first) on {n} qubits, key targets {list(targets)}"
+            if dict(res.probabilities("k0")) != {want: 1.0}:
+                return bad(f"{tag}: probabilities(k0) = {res.probabilities('k0')}, expected {{{want}: 1.0}}", kind="target_layout")
+            dist, _ = _sim_distribution(res, layout, 2, False)
+            if dist != {(want_rows, want_rows): 1.0}:
+                return bad(f"{tag}: to_cirq_result rows {dist}, expected {want_rows} twice", kind="target_layout")
+        nl += 1
+    return good(nontrivial=0 < v < 2 ** n - 1, layouts=nl)
 
 
 def run_loop_sampler(case):
@@ -1906,6 +2060,9 @@ def stages(tier, seed):
                   describe=lambda c: {"target": c[0], "letters": [(_G["seq_qis"] if c[1] == "q" else _G["seq_native"])[i][0] for i in c[2]],
                                       "layout": _G["layouts"][c[3]].name}),
         CaseStage("ionq_sampler_sweep_loop", [0, 1, 2], run_loop_sampler, reset=reset),
+        CaseStage("ionq_batch_loop", batch_loop_cases(tier), run_batch_loop, reset=reset,
+                  describe=lambda c: {"target": c[0], "circuits": [build_batch_loop_pool()[i][0] for i in c[1]], "child_id_order": c[2]}),
+        CaseStage("ionq_target_layouts", target_layout_cases(), run_target_layouts, reset=reset),
         CaseStage("aqt_payloads", aqt_cases(tier), run_aqt, reset=reset, describe=describe_aqt),
         CaseStage("aqt_legacy_converter", aqt_legacy_cases(tier), run_aqt_legacy, reset=reset),
         CaseStage("aqt_local_simulator", aqt_local_cases(tier), run_aqt_local, reset=reset, describe=describe_aqt),
